@@ -22,7 +22,7 @@ ASSUMPTIONS = [
     "a perturbed id that happens to equal the id of the request actually sent (constant clock, 'previous id') counts as an echo",
     "wrong id combined with non-zero error-status is not generated (neither C07 nor C08 says which exception wins)",
 ]
-PROBES = ["clock_stepping", "clock_jumping", "clock_constant", "id_plus_1", "id_minus_1", "id_arbitrary", "id_previous",
+PROBES = ["clock_after_2038", "clock_stepping", "clock_jumping", "clock_constant", "id_plus_1", "id_minus_1", "id_arbitrary", "id_previous",
           "other_community", "other_version", "disco_foreign_msgid", "perturb_inside_walk", "multiset_stepping",
           "jump_fired", "v1", "v3", "foreign_response_with_error_status"]
 shrink_lists: List[tuple] = [("mib",)]
@@ -71,6 +71,10 @@ def plan_for(tier: str, seed: int, i: int) -> dict:
     # the foreign response may in addition carry error-status noSuchName (SNMPv1's end-of-MIB signal, which walks treat
     # as a normal end): whichever exception wins, a response that is not the answer must never END an operation normally
     with_error = mrng.random() < 0.2
+    if mrng.random() < 0.15:
+        # a wall clock after 19 January 2038: the clock-derived request id no longer fits Integer32, the agent echoes
+        # what it received all the same ("no matter how the clock advances")
+        clock["epoch"] = mrng.choice([2**31, 2**31 + 1, 4_102_444_800, 2**32 + 7])
     return {"prop": ID, "proto": proto, "mib": sorted(mib.items()), "op": op, "behaviour": beh, "with_error": with_error,
             "target": rng.randrange(0, 4), "arb": rng.choice([0, 1, -1, 2**31 - 1, -(2**31), 12345]), "clock": clock}
 
@@ -171,12 +175,15 @@ def execute(plan: dict) -> dict:
     exchanges, sim_s = a["exchanges"], a["sim_s"]
     if a["applied"] is None:
         # conformant echo (or the perturbation never applied): must behave as under the tied clock
-        b = _run(plan, {"mode": "tied", "epoch": plan["clock"]["epoch"]}, "echo")
+        # (a wall clock after 2038 is compared with a twin before 2038: the date must not matter either)
+        b = _run(plan, {"mode": "tied", "epoch": min(plan["clock"]["epoch"], 1_700_000_000)}, "echo")
         digests.append(b["digest"])
         exchanges += b["exchanges"]
         sim_s += b["sim_s"]
         bname = type(b["exc"]).__name__ if b["exc"] else None
-        if excname != bname:
+        if excname == "InvalidResponseId":
+            fail("echo-refused", "conformant echo refused: %s" % exc)
+        elif excname != bname:
             fail("echo-refused" if excname else "twin-differs",
                  "conformant echo: %s (%s) but %s under the tied clock" % (excname or "ok", exc, bname or "ok"))
         elif exc is None and a["res"] != b["res"]:
@@ -204,6 +211,7 @@ def execute(plan: dict) -> dict:
     probes = {k: 0 for k in PROBES}
     probes["clock_" + mode] = 1 if mode != "tied" else 0
     probes.pop("clock_tied", None)
+    probes["clock_after_2038"] = int(plan["clock"]["epoch"] >= 2**31)
     for k, name in (("plus1", "id_plus_1"), ("minus1", "id_minus_1"), ("arbitrary", "id_arbitrary"),
                     ("previous", "id_previous"), ("community", "other_community"), ("version", "other_version"),
                     ("disco_msgid", "disco_foreign_msgid")):
